@@ -620,6 +620,9 @@ func replay(test string, raw json.RawMessage) (string, string) {
 		}()
 		key, what, _ := checkPanic(k)
 		return key, what
+	case "AssertPosition":
+		key, what := replayAssert(raw)
+		return key, what
 	case "PositionMapping":
 		var k setCase
 		if err := json.Unmarshal(raw, &k); err != nil {
